@@ -18,6 +18,7 @@ Case (JSON):
     | {"k":"count","name":s}   lena.flow.Count(name) as a Run element (stateful; post-elements and MapBins sequences)
     | {"k":"acc","kind":acc}   an accumulator (_Acc) as a Run element (stateful, filled when run() is called; MapBins only)
   P (a Python value) = int | str | {"t":[P..]} (tuple) | {"l":[P..]} (list) | {key:P} (dict; keys are never "t"/"l")
+    | {"inf": 1|-1} (float("inf") / float("-inf"): a coordinate outside any edges)
   optional keys (adversary round):
    "edges_form": the containers of the edges (tuple, range, array.array, a user-defined sequence, mixtures);
    "fscale": S (coordinates and edges of the real run are the floats x / S; S = 2**60: arbitrary floats),
@@ -182,7 +183,7 @@ ASSUMPTIONS = [
     "domain of the correspondence: edges are lists, tuples, ranges, array.array or user-defined sequences (any mixture; "
     "a collections.deque cannot be sliced and is rejected by lena) of integers of any size below 2**101, or of floats "
     "x / S; coordinates are integers/floats, tuples or lists of them; axes have at most 5 bins in the general "
-    "cases and 16-129 bins in the long-axis cases, flows at most 14 values, 1-3 dimensions; results in cells are "
+    "cases and 6-129 bins in the long-axis cases, flows at most 14 values (long-axis cases: one in five with 30-400 values), 1-4 dimensions; results in cells are "
     "numbers, tuples, (data, context) pairs or histograms, never Python lists (md_map would descend into them) and never "
     "a bare tuple of the form (x, dict) (lena reads it as a pair); select_bins: functions, classes, context strings, "
     "lists and tuples of them, ready Selector objects; MapBins(get_example_bin=...): the default, a first-cell and a "
@@ -199,6 +200,12 @@ ASSUMPTIONS = [
     "the edges as it arrived' is then the content of that dictionary when fill() was called",
     "the values yielded by compute(), IterateBins.run and MapBins.run are read when they are yielded and again after the "
     "generator has ended (a consumer that collects them); both readings must show the per-cell results",
+    "a compute() that yields more than 1000 histograms is taken as one that does not end (no analysis of the fixture "
+    "yields more than 14 * 2**4 * 2 results in a cell; long flows are generated without `dup`); a fill() that does not "
+    "return is caught by the watchdog of harness.common (CASE_TIMEOUT, confirmed by a solitary re-run)",
+    "adversary round: all ten candidates (notes/adversary_C11.md) were judged inside the statement and its quantifier; "
+    "infinite coordinates (float inf / -inf: values outside any edges) stand for the integers +-2**400 in the model; "
+    "not generated (open): nan coordinates, 5 and more dimensions, fill() after compute()",
     "the private attributes `_cur_context` and the cells' `_fill_compute` are read because cell_is_subflow and "
     "context_is_last_inside speak about them; when they are not found they are not compared",
     "cases whose model reply contains `unmodelled` are not compared; they are counted in the evidence notes and the "
@@ -207,14 +214,14 @@ ASSUMPTIONS = [
 RULE = ("quick and thorough: (E) exhaustive small scope - for 1-d edges [0,2], [0,2,4], [0,1,3] and 2-d edges "
         "[[0,2],[0,2,4]] every flow of length <= 2 (thorough: <= 3 in 1-d) over all integer points from one below to one "
         "above the edges, with the accumulators `store` and `each`, followed by IterateBins; (S) seeded random cases: 1-, 2- "
-        "and (rarely) 3-dimensional edges, flows of bare values and (data, context) pairs inside / on the border / outside, "
+        "and (rarely) 3- and 4-dimensional edges, infinite coordinates, flows of bare values and (data, context) pairs inside / on the border / outside, "
         "argument variables Variable / typed Variable / Combine, analyses pre* acc post* over 7 accumulator kinds and 9 "
         "element kinds (context-mutating, multiplying, dropping, raising; stateful: lena.flow.Count and accumulators as Run "
         "elements in post-sequences and MapBins sequences), IterateBins and MapBins stages with selectors, "
         "bare histograms and pass-through values; bad constructor arguments; (A, adversary round) select_bins in every "
         "form a Selector is made from (function, class, context string, list, tuple, Selector object), MapBins with a "
         "caller's get_example_bin (first / last cell), edges in tuples, ranges, array.array, user-defined sequences and "
-        "mixtures, long axes (16-129 bins, values on the borders), large integers (2**31 .. 2**100, edges of very "
+        "mixtures, long axes (6-129 bins, values on the borders; long flows of 30-400 values), large integers (2**31 .. 2**100, edges of very "
         "different sizes on one axis, values one beside an edge, also as floats with integer edges), arbitrary floats "
         "(S = 2**60: decimal fractions, values one ulp / 2**-k / 1e-16..1e-7 beside an edge), a source that re-uses one "
         "context dictionary, every yielded object read again after the generator has ended. Non-trivial: a histogram "
@@ -234,6 +241,8 @@ def _py(o):
             return tuple(_py(x) for x in o["t"])
         if len(o) == 1 and "l" in o:
             return [_py(x) for x in o["l"]]
+        if len(o) == 1 and "inf" in o:
+            return float("inf") if o["inf"] > 0 else float("-inf")
         return {k: _py(v) for k, v in o.items()}
     return o
 
@@ -254,6 +263,11 @@ class _Names:
         self.names = names
         self.index = {n: i for i, n in enumerate(names)}
         self.fscale = fscale      # float cases: every float f stands for the integer f * fscale of the model
+
+
+# an infinite coordinate (a value outside any edges) is, for the model, an integer beyond every edge of the
+# correspondence domain (edges < 2**101 at scales up to 2**60)
+_INF_MODEL = 2 ** 400
 
 
 def _unfloat(f, nm):
@@ -278,6 +292,8 @@ def _slots(o, nm):
     if type(o) is int or isinstance(o, str):
         return o
     if type(o) is float:
+        if o in (float("inf"), float("-inf")):
+            return _INF_MODEL if o > 0 else -_INF_MODEL
         try:
             return _unfloat(o, nm)
         except TypeError:
@@ -884,6 +900,9 @@ def _stage_inputs(st, hists):
     return pre + hs + post
 
 
+_MAX_HISTS = 1000
+
+
 def _drain_compute(sib, nm, keep):
     """iterate compute() to its end; every value is encoded when it is yielded; `live` are the yielded objects
     themselves, `hists` deep copies of them"""
@@ -901,6 +920,11 @@ def _drain_compute(sib, nm, keep):
         hist, ctx = o
         if not isinstance(hist, histogram):
             raise AssertionError("compute() did not yield a histogram")
+        if len(outs) >= _MAX_HISTS:
+            # more histograms than any analysis of the fixture can yield results in one cell (at most 14 values, each
+            # doubled by at most four `dup`, twice for `sumcount`): a generator that does not end
+            fin = "endless"
+            break
         outs.append({"edges": _enc_edges(hist.edges, nm), "bins": _enc_bins(hist.bins, nm), "c": _slots(ctx, nm)})
         live.append(o)
         if keep:
@@ -1267,6 +1291,9 @@ def _compare_spec(case, res, sp, nm):
 
 
 def compare(case, res, replies):
+    if "__timeout__" in res:
+        # the watchdog of harness.common ended the real run (reported through the oracle channel): nothing to compare
+        return None
     m = replies[0]
     if "err" in m:
         return f"model driver error: {m['err']}"
@@ -1642,6 +1669,9 @@ def oracle(case, res):
                 f"the private analysis of every cell accepts its sub-flow")
     outs, fin = res["compute"]["out"], res["compute"]["fin"]
     n = ref["n"]
+    if fin == "endless":
+        return (f"compute() does not end: it yielded more than {_MAX_HISTS} histograms, but the private analysis of a cell "
+                f"yields at most {n} results before a cell is exhausted")
     if len(outs) < n and (fin is None or ref["end"] == "stop"):
         return (f"compute() yielded {len(outs)} histograms (end: {fin}), but every cell's private analysis yields at "
                 f"least {n} results")
@@ -1995,8 +2025,10 @@ def _gen_float(rng, big):
                 pt.append(rng.choice(a))                       # exactly on an edge
             elif r < 0.6:
                 pt.append(rng.choice(a) + rng.choice([-1, 1]))   # the nearest representable neighbours
-            else:
+            elif r < 0.96:
                 pt.append(rng.randint(a[0] - S, a[-1] + S))
+            else:
+                pt.append({"inf": rng.choice([1, -1])})
         d = {"t": pt} if tuple_data else pt[0]
         flow.append(_gen_flow_ctx(rng, {"d": d}))
     spec, res_int = _gen_spec(rng, not tuple_data, False, True)
@@ -2230,11 +2262,11 @@ def _gen_bigint(rng, big):
 
 
 def _gen_long(rng, big):
-    """axes with many bins (17 .. 130 edges): a search that changes its method with the size of the array, and the
+    """axes with many bins (7 .. 130 edges): a search that changes its method with the size of the array, and the
     interpolation over many steps"""
     dim = 1 if rng.random() < 0.75 else 2
     ap = rng.random() < 0.4
-    n = rng.choice([16, 17, 18, 20, 24, 31, 32, 33, 40, 50, 64, 65, 100, 129])
+    n = rng.choice([6, 7, 8, 9, 10, 12, 15, 16, 17, 18, 20, 24, 31, 32, 33, 40, 50, 64, 65, 100, 129])
     long_axis = _gen_axis(rng, n, ap, n)
     axes = [long_axis] if dim == 1 else ([long_axis, _gen_axis(rng, 2)] if rng.random() < 0.5 else [_gen_axis(rng, 2), long_axis])
     tuple_data = dim == 2 or rng.random() < 0.3
@@ -2245,16 +2277,25 @@ def _gen_long(rng, big):
     else:
         argvar = {"kind": "combine", "vars": [{"name": "xy"[k], "i": k, "type": ""} for k in range(2)], "kw": {}}
     flow = []
-    for _ in range(rng.randint(1, 14 if big else 9)):
+    # (one case in five: a long flow - a change that buffers values, caches per value or switches its method after
+    # some number of fills shows only then)
+    nflow = rng.randint(30, 400 if big else 150) if rng.random() < 0.2 else rng.randint(1, 14 if big else 9)
+    for _ in range(nflow):
         pt = []
         for a in axes:
             r = rng.random()
             pt.append(rng.choice(a) if r < 0.6 else (rng.choice(a[:2] + a[-2:]) if r < 0.75 else rng.randint(a[0] - 2, a[-1] + 2)))
+            if rng.random() < 0.02:
+                pt[-1] = {"inf": rng.choice([1, -1])}
         flow.append(_gen_flow_ctx(rng, {"d": {"t": pt} if tuple_data else pt[0]}))
     spec, res_int = _gen_spec(rng, not tuple_data, False)
+    if nflow > 14:
+        # (no `dup`: the number of results would grow to thousands)
+        spec["pre"] = [s for s in spec["pre"] if s["k"] != "dup"]
+        spec["post"] = [s for s in spec["post"] if s["k"] != "dup"]
     case = {"edges": axes[0] if dim == 1 else axes, "seq_ok": True, "argvar_ok": True, "bare_acc": rng.random() < 0.3,
             "argvar": argvar, "spec": spec, "flow": flow, "iter": None, "map": None}
-    if rng.random() < 0.5:
+    if rng.random() < 0.5 and nflow <= 14:
         _gen_stages(rng, case, res_int, False, dim)
     if ap and rng.random() < 0.5:
         case["edges_form"] = "range"
@@ -2275,7 +2316,7 @@ def _gen_forms(rng, case):
                                          "userseq", "userseq", "mixed", "userseq_of_userseq"])
     a = case["argvar"]
     if a["kind"] == "var" and a["getter"].get("k") == "id" and rng.random() < 0.5 and \
-            all(isinstance(v["d"], dict) for v in case["flow"]) and case["flow"]:
+            all(isinstance(v["d"], dict) and "t" in v["d"] for v in case["flow"]) and case["flow"]:
         a["getter"] = {"k": "list"}
     if rng.random() < 0.25:
         case["pipe"] = copy.deepcopy(rng.choice(_PIPES))
@@ -2284,7 +2325,7 @@ def _gen_forms(rng, case):
 def _gen_random(rng, big):
     wild = rng.random() < 0.12
     r = rng.random()
-    dim = 1 if r < 0.5 else (2 if r < 0.93 else 3)
+    dim = 1 if r < 0.5 else (2 if r < 0.93 else (3 if r < 0.985 else 4))
     ap = rng.random() < 0.12                    # arithmetic progressions: the axes can be given as ranges
     if dim == 1:
         edges = _gen_axis(rng, 4, ap)
@@ -2311,7 +2352,7 @@ def _gen_random(rng, big):
         argvar = {"kind": "var", "name": "xy", "getter": {"k": "id"}, "type": "", "kw": {}}
     else:
         argvar = {"kind": "combine",
-                  "vars": [{"name": "xyz"[k], "i": perm[k], "type": rng.choice(["", "", "coordinate"])}
+                  "vars": [{"name": "xyzw"[k], "i": perm[k], "type": rng.choice(["", "", "coordinate"])}
                            for k in range(len(axes))],
                   "kw": rng.choice([{}, {}, {"name": "pt"}])}
     if wild and rng.random() < 0.3:
@@ -2323,6 +2364,8 @@ def _gen_random(rng, big):
         if rng.random() < 0.5:                  # on a border
             k = rng.randrange(len(axes))
             pt[k] = rng.choice(axes[k])
+        elif rng.random() < 0.08:               # infinitely far outside
+            pt[rng.randrange(len(axes))] = {"inf": rng.choice([1, -1])}
         if tuple_data:
             comps = [0] * ncomp
             for k in range(len(axes)):
@@ -2464,17 +2507,21 @@ def classify(case, res):
     if any(abs(x) >= 2 ** 53 * case.get("fscale", 1) for a in (edges if dim > 1 or (edges and isinstance(edges[0], list)) else [edges])
            for x in a if type(x) is int):
         labels.append("big-integers")
-    if any(len(a) > 17 for a in (edges if edges and isinstance(edges[0], list) else [edges])):
+    if any(len(a) > 6 for a in (edges if edges and isinstance(edges[0], list) else [edges])):
         labels.append("long-axis")
     if case.get("shared_ctx"):
         labels.append("shared-context-object")
+    if '"inf"' in str(case["flow"]).replace("'", '"'):
+        labels.append("infinite-coordinate")
     for k in ("iter", "map"):
         st = case.get(k)
         if st and isinstance(st["sel"], dict):
             labels.append(k + ":sel=" + st["sel"]["k"] + ("(Selector)" if st["sel"].get("wrap") else ""))
         if st and st.get("geb"):
             labels.append("map:get_example_bin=" + st["geb"])
-    if "init" in res:
+    if "__timeout__" in res:
+        labels.append("watchdog")
+    elif "init" in res:
         labels.append("init:" + res["init"])
     elif "fill" in res:
         labels.append("fill:" + res["fill"]["e"])
